@@ -254,3 +254,9 @@ Lemma shape_clear : same_shape clear_access_flags.
 Proof. intros x. repeat split. Qed.
 Lemma shape_set_reload : same_shape set_reload.
 Proof. intros x. repeat split. Qed.
+Lemma shape_switch_work se i : same_shape (switch_work se i).
+Proof. intros x. repeat split. Qed.
+Lemma shape_stamp se r : r_id (stamp se r) = r_id r /\ r_start (stamp se r) = r_start r /\ r_end (stamp se r) = r_end r /\
+  r_ver (stamp se r) = r_ver r /\ r_conf (stamp se r) = r_conf r /\ r_peers (stamp se r) = r_peers r /\ r_work (stamp se r) = r_work r /\
+  r_expired (stamp se r) = r_expired r /\ r_reason (stamp se r) = r_reason r /\ r_reload (stamp se r) = r_reload r /\ r_ready (stamp se r) = r_ready r.
+Proof. repeat split. Qed.
